@@ -1748,7 +1748,14 @@ class Tensor:
         if self._base is not None and not self._base._view_children:
             self._base = None
 
-        graph = _dup.DuplicatingGraph(self if self.base is None else self.base)
+        # the update writes into the memory of the tensor that owns it: the gradient
+        # that tensor may still hold (and with it those of its views) is stale
+        _owner = self if self.base is None else self.base
+        _prior_owner_grad = _owner._grad
+        if _owner is not self:
+            _owner.null_grad()
+
+        graph = _dup.DuplicatingGraph(_owner)
 
         # Create copy of base so that mutation has no impact on the
         # state of any ops depending on it or its views
@@ -1799,6 +1806,8 @@ class Tensor:
         except Exception as e:
             graph.restore_old_graph()
             self._grad, self._view_grad, self._base = _prior_state
+            if _owner is not self:
+                _owner._grad = _prior_owner_grad
             raise e
 
         placeholder_mutant_view._constant = inplace_target._constant
